@@ -36,7 +36,7 @@ ASSUMPTIONS = ["reference model: reads are no-ops, selections are snapshots, a[.
                "known finding 'lazy-view-write-through' is classified by an explicit buffer-sharing model; only deviations equal to that model are attributed to it"]
 REQUIRED_FEATURES = ["pending_selection", "write_after_read", "alias_derivation",
                      "three_variables", "selection_of_selection", "write_through_alias", "write_through_read_result", "write_to_callers_buffer"]
-BOUNDS = {"quick": "2 base arrays, 3 variables, every history of depth <= 4 over 9 selectors x 6 writes x 28 reads (all variables / sources), "
+BOUNDS = {"quick": "2 base arrays, 3 variables, every history of depth <= 4 over 10 selectors x 6 writes x 30 reads (all variables / sources), "
                    "plus depth 5 for histories on the first base whose first two steps are derivations; steps V (write through the array a read returned, 7 kinds) and, on a base built over a caller's strided buffer, X (the caller overwrites it); invariant: numpy print / error configuration unchanged after every step",
           "thorough": "3 base arrays, depth <= 5 complete, depth 6 after two derivations"}
 
@@ -48,6 +48,7 @@ SELS = {
     "rows+": ["s", 1, None, None], "rows-": ["s", None, None, -1], "list": None, "mask": None,
     "cols+": ["t", ["s", None, None, None], ["s", 1, None, None]], "cols-": ["t", ["s", None, None, None], ["s", None, None, -1]],
     "cols2": ["t", ["s", None, None, None], ["s", None, None, 2]],
+    "perm": None,
     "E": "E", "T0": "T0",
 }
 ALIAS = ("E", "T0")
@@ -56,7 +57,7 @@ WRITES = ["row0", "col0", "fill", "cell", "rows1", "from"]
 READS = {"meta": False, "repr": True, "tolist": True, "ravel": True, "x[0]": True, "x[1:]": False, "x[:,::-1]": False,
          "x[0,0]": True, "x+1": True, "sum-1": True, "sum0": True, "concat": True, "x[...]": True, "x+y": True,
          "x[:,::2]": False, "x[mask]": True, "rslice": True, "col_counts": False, "x*fcol": True, "argmax": True, "x[ri,ci]": True, "colvals": False,
-         "sort": True, "unique": True, "cumsum": True, "nonzero": True, "mean-1": True, "x[:,-1]": False}
+         "sort": True, "unique": True, "cumsum": True, "nonzero": True, "mean-1": True, "x[:,-1]": False, "x[-1:]": False, "x[:-1]": False}
 # writes THROUGH the ndarray a read returned (r = x[0]; r[...] = -4).  Whether such a result is a view or a copy is the library's
 # choice, so these steps have no model; they are judged by the read-commutation oracle alone and not expanded further.
 VIA = ["x[0]", "x[-1]", "x[-1,0:2]", "x[0,::2]", "ravel", "x[:,0]", "sum-1"]
@@ -87,6 +88,8 @@ def shards(tier):
     # the base array built over a strided view of a caller's buffer ("ext"), with the extra step X = the caller writes to that buffer
     ne = 4 if tier == "quick" else 16
     out += [{"base": ["ext"] + Q_BASES[0], "depth": 3 if tier == "quick" else 4, "part": p, "of": ne} for p in range(ne)]
+    # a four-row base (row lists that keep the first and last row in place need four rows), one level less deep
+    out += [{"base": [1, 2, 1, 2], "depth": 3 if tier == "quick" else 4, "part": p, "of": ne} for p in range(ne)]
     return out
 
 
@@ -95,6 +98,8 @@ def _sel(name, n):
         return ["l", [n - 1, 0]] if n else ["l", []]
     if name == "mask":
         return ["m", [(i + 1) % 2 for i in range(n)]]
+    if name == "perm":      # first and last row in place, the middle ones swapped (with fewer than four rows: a repeated first row)
+        return ["l", [0, 2, 1] + list(range(3, n))] if n >= 4 else (["l", [0, 0] + list(range(1, n))] if n else ["l", []])
     return SELS[name]
 
 
@@ -237,6 +242,8 @@ def enabled(snap):
         dst = free[0]
         for src in live:
             for s in SELS:
+                if s == "perm" and len(snap.v[src]) < 4:
+                    continue
                 ops.append(["D", dst, src, s])
     for x in live:
         rows = snap.v[x]
@@ -358,6 +365,10 @@ def do_read(x, r, y=None):
         return x.get_column_values(0)
     if r == "x[:,-1]":
         return x[:, -1]
+    if r == "x[-1:]":
+        return x[-1:]
+    if r == "x[:-1]":
+        return x[:-1]
     if r == "mean-1":
         with np.errstate(all="ignore"):
             return x.mean(axis=-1)
